@@ -31,6 +31,7 @@ def main():
     args = sys.argv[2:]
     checks = None
     tier = "quick"
+    skip_demo = "--skip-demo" in args
     for i, a in enumerate(args):
         if a == "--checks":
             checks = args[i + 1].split(",")
@@ -42,7 +43,14 @@ def main():
     wt = ("/tmp/wt2-" if "/seed2-out/" in d else "/tmp/wt-") + prop
     run_txt = open(os.path.join(d, "RUN.txt")).read() + "\n" + meta.get("demo_cmd", "")
     res = {"dir": d, "property": prop, "title": meta.get("title")}
-    if os.path.isdir(wt):
+    old_res = {}
+    if os.path.exists(os.path.join(d, "result.json")):
+        old_res = json.load(open(os.path.join(d, "result.json")))
+    if skip_demo:
+        for k in ("demo_copies", "demo_tests", "demo_clean_rc", "demo_patched_rc", "apply_rc", "demo_patched_tail", "existing_tests_rc", "existing_tests_tail"):
+            if k in old_res:
+                res[k] = old_res[k]
+    if os.path.isdir(wt) and not skip_demo:
         sh("git checkout -- . && git clean -fdq", cwd=wt)
         # demo files and where they go
         copies = []
@@ -98,7 +106,9 @@ def main():
             env = dict(os.environ, VERIF_REPO=repo, VERIF_EVIDENCE_DIR=os.path.join(tmp, "ev"), VERIF_REPLAY_DIR=os.path.join(tmp, "rp"))
             rc, out = sh("%s %s --tier %s" % (os.path.join(VERIF, "bin", "check"), c, tier), env=env, timeout=3600)
             lines = [l for l in out.splitlines() if l.startswith(("VIOLATION", "  signature", "INCONCLUSIVE", "KNOWN")) or l.startswith("[%s]" % c)]
-            res["checks"][c] = {"exit": rc, "lines": [l[:300] for l in lines[-8:]]}
+            res["checks"][c] = {"exit": rc, "tier": tier, "lines": [l[:300] for l in lines[-8:]]}
+        for c, v in old_res.get("checks", {}).items():   # keep earlier runs of other checks
+            res["checks"].setdefault(c, v)
     finally:
         shutil.rmtree(tmp, ignore_errors=True)
     with open(os.path.join(d, "result.json"), "w") as fh:
